@@ -360,6 +360,12 @@ class CallMixin:
             if isinstance(x, SV) and x.pt.kind == "seq":
                 return x
             raise Unsupported(f"tuple() of {x!r}")
+        if name == "defaultdict":
+            if want is None or want.kind != "map" or want.name != "default":
+                raise Unsupported("defaultdict needs a DefaultMap[...] typed target (locals=...)")
+            if not (len(args) == 1 and isinstance(args[0], Builtin) and args[0].name == "set" and want.args[1].kind == "set"):
+                raise Unsupported("only defaultdict(set) is modelled")
+            return self.empty_map(want)
         if name in ("set", "frozenset"):
             if not args:
                 if want is None or want.kind != "set":
@@ -679,6 +685,20 @@ class CallMixin:
             r = self.apply_contract(c, v, [], {}, st, None)
             if isinstance(r, SV) and r.pt == spt:
                 return r
+        if isinstance(v, SV) and v.pt.kind == "set" and v.pt.args[0] == spt.args[0]:
+            # *set: some duplicate-free enumeration of the members
+            es = self.tenv.sort(spt.args[0])
+            sq = self.fresh("setseq", spt, st)
+            ix = smt.fresh_name("setidx")
+            self.ctx.declare_fun(ix, [es], "Int")
+            i = smt.Var(smt.fresh_name("i"), "Int")
+            e = smt.Var(smt.fresh_name("e"), es)
+            nth = smt.SeqNth(sq.term, i)
+            ixe = self.ctx.app(ix, e)
+            st.assume(smt.Forall([(i.args[0], "Int")], smt.Implies(smt.And(smt.Le(smt.Int(0), i), smt.Lt(i, smt.SeqLen(sq.term))), smt.Select(v.term, nth)), patterns=((nth,),)))
+            st.assume(smt.Forall([(e.args[0], es)], smt.Implies(smt.Select(v.term, e), smt.And(smt.Le(smt.Int(0), ixe), smt.Lt(ixe, smt.SeqLen(sq.term)), smt.Eq(smt.SeqNth(sq.term, ixe), e))),
+                                 patterns=((smt.Select(v.term, e),),)))
+            return sq
         if isinstance(v, tuple) and v and v[0] == "#map":
             raise Unsupported("starred map() argument (contract the lambda's image as a ghost sequence)")
         raise Unsupported(f"starred argument {v!r}")
